@@ -85,7 +85,7 @@ def attach(desc, envelope, sig_wf=None, key=None):
     desc['envelope_sigs'] = envelope['signatures']
 
 
-def checker_lemma_factory(build_env, key):
+def checker_lemma_factory(build_env, key, mk_case=None):
     """unit proving: checkformat_delegating_metadata(envelope) returns <=> wf(signed) & signature entries well formed;
     rejections are TypeError / ValueError"""
     def f(eng):
@@ -103,14 +103,19 @@ def checker_lemma_factory(build_env, key):
             m = path_model(eng)
             if m is None:
                 return None
-            mk = lambda mm: dict(scenario='lemma')
+            mk = (lambda mm: mk_case(eng, mm, desc, envelope)) if mk_case else (lambda mm: dict(scenario='lemma'))
             if is_ret(out):
                 obs = [oblige(eng, 'checker accepts => well formed', z3.Not(good), mk)]
             elif exc_in(out, ('TypeError', 'ValueError')):
                 obs = [oblige(eng, 'checker rejects => not well formed', good, mk)]
             else:
-                obs = [dict(name='checker rejects with TypeError/ValueError', status='sat', cex=dict(scenario='lemma'))]
-            return record(eng, out, obs, None, ['accepts'] if is_ret(out) else ['rejects'])
+                obs = [dict(name='checker rejects with TypeError/ValueError', status='sat', cex=mk(m))]
+            wit = None
+            if mk_case:
+                wit = mk(m)
+                from pysym.hutil import predicted
+                wit['predicted'] = predicted(out)
+            return record(eng, out, obs, wit, ['accepts'] if is_ret(out) else ['rejects'])
         return harness
     return f
 
